@@ -108,7 +108,22 @@ def both(build, foamj, text, name, q):
         # local functions): not a program of the family, the Java route is not tried
         return i, {"stage": "skipped", "rc": None, "stdout": "", "stderr": "", "log": "", "commands": []}
     j = java_route(build, foamj, text, name, q, timeout=TIMEOUT)
+    if j["stage"] == "javagen" and i["rc"] not in (0, "TIMEOUT") and i["rc"] == j["rc"]:
+        # both routes end with the same failure status and the Java route did not get as far as a .java file:
+        # is it the compiler itself that faults on this program, whatever is asked of it?  Ask for no back end at
+        # all (-Fao: the object file is written before any code generator runs).  The same fault there means the
+        # Java generator was never reached - the program is not one the compiler can compile, on any route
+        # (seen on the unchanged tree: `Program fault (segmentation violation)` at every -Q level, rc 1).
+        src = name + ".as"
+        n = aldor.compile(build, {src: text}, ["-Q%d" % q, "-Fao", src], timeout=TIMEOUT)
+        nf, jf = fault_lines(n["stdout"] + n["stderr"]), fault_lines(j["log"])
+        if n["rc"] == j["rc"] and nf and nf == jf and nf == fault_lines(i["stdout"] + i["stderr"]):
+            j["compiler_fault_without_back_end"] = nf
     return i, j
+
+def fault_lines(text):
+    """the compiler's own fault reports in a log (not diagnostics about the source text)"""
+    return [l.strip() for l in text.split("\n") if re.match(r"\s*(Program fault|Compiler bug|#\d+ \((Fatal )?Error\) (Program fault|Compiler bug))", l)]
 
 def classify(i, j):
     """None = the routes agree; 'invalid' = the interpreter route itself rejects the program"""
@@ -118,6 +133,8 @@ def classify(i, j):
         return "invalid"                     # the compiler / interpreter itself does not finish: not this property's subject
     if j["stage"] == "javagen" and isinstance(i["rc"], int) and i["rc"] < 0 and j["rc"] == i["rc"]:
         return "invalid"                     # the compiler is killed by the same signal on both routes, before any back end runs
+    if j.get("compiler_fault_without_back_end"):
+        return "invalid"                     # the compiler faults identically with no back end selected (see both())
     if j["rc"] == "TIMEOUT": return "timeout"
     if j["stage"] == "javagen": return "javagen-fail"
     if j["stage"] == "javac": return "javac-fail"
